@@ -664,7 +664,13 @@ func TestSyntaxFaults(t *testing.T) {
 		prefixes := []string{"令乙 = ", "（显示：宽字符变量、", "令总价 = 单价 * ", "输出", "令A = B + ", "", ""}
 		prefix := rapid.SampledFrom(prefixes).Draw(t, "prefix")
 		c := synCase{}
-		switch rapid.IntRange(0, 3).Draw(t, "kind") {
+		switch rapid.IntRange(0, 4).Draw(t, "kind") {
+		case 4:
+			// a line indented deeper than the statement before it, which opens no block
+			c.Kind = "line indented deeper than its block"
+			add(ind + "令前 = 0")
+			add(ind + unit + "令后 = 2")
+			c.Col, c.Text = 0, "令后 = 2"
 		case 0:
 			c.Kind = "illegal character ~"
 			add(ind + prefix + "~1")
